@@ -20,14 +20,15 @@ VARIABLES arr,      \* array id -> current value
           cres,     \* cached lookup result: the value it was computed from, or 0 when none
           last,     \* outcome of the last apply: the value whose image was returned, or -1 for a containment error
           lastIdeal,\* what a pure function returns
+          touched,  \* the transform was queried (pseudoinverse / copy / parameters / properties read) since the last apply
           hist
-vars == <<arr, cref, csnap, cres, last, lastIdeal, hist>>
+vars == <<arr, cref, csnap, cres, last, lastIdeal, touched, hist>>
 Vals == {1, 2, 11, 90}
 Outside(v) == v = 90
 Close(a, b) == a = b \/ {a, b} = {1, 11}
 Arrays == DOMAIN arr
 Ideal(v) == IF Outside(v) THEN -1 ELSE v
-Init == arr = [a \in {1, 2} |-> 1] /\ cref = 0 /\ csnap = 0 /\ cres = 0 /\ last = 0 /\ lastIdeal = 0 /\ hist = <<>>
+Init == arr = [a \in {1, 2} |-> 1] /\ cref = 0 /\ csnap = 0 /\ cres = 0 /\ last = 0 /\ lastIdeal = 0 /\ touched = FALSE /\ hist = <<>>
 Hit(a) == CASE Design = "asimpl" -> cref # 0 /\ Close(arr[a], arr[cref])     \* compares with whatever the referenced array holds NOW
             [] OTHER -> csnap # 0 /\ arr[a] = csnap
 Rec(op, a, v, b) == [op |-> op, a |-> a, v |-> v, batch |-> b, obs |-> lastIdeal']
@@ -43,20 +44,27 @@ Apply(a, kind, b) ==
                 /\ IF Design = "snapfirst" THEN csnap' = arr[a] /\ UNCHANGED <<cref, cres>>   \* key stored, result not
                    ELSE UNCHANGED <<cref, csnap, cres>>
            ELSE last' = arr[a] /\ cres' = arr[a] /\ cref' = a /\ csnap' = arr[a]
-   /\ UNCHANGED arr
+   /\ UNCHANGED arr /\ touched' = FALSE
    /\ hist' = Append(hist, Rec(kind, a, arr[a], b))
 \* in-place edit of a caller-owned array
 Write(a, v) == /\ Len(hist) < D /\ v # arr[a]
                /\ arr' = [arr EXCEPT ![a] = v]
-               /\ UNCHANGED <<cref, csnap, cres, last, lastIdeal>>
+               /\ UNCHANGED <<cref, csnap, cres, last, lastIdeal, touched>>
                /\ hist' = Append(hist, [op |-> "write", a |-> a, v |-> v, batch |-> 0, obs |-> lastIdeal])
+\* every other public, non-mutating use of the transform between two applications: taking its pseudoinverse, copying it,
+\* reading its parameter vector and properties.  Under every memo design these leave the transform as it was - the adapter
+\* really makes the calls, so a real transform that is changed by being looked at shows up at the next Apply
+Query == /\ Len(hist) < D /\ ~touched /\ touched' = TRUE
+         /\ UNCHANGED <<arr, cref, csnap, cres, last, lastIdeal>>
+         /\ hist' = Append(hist, [op |-> "query", a |-> 0, v |-> 0, batch |-> 0, obs |-> lastIdeal])
 Next == \E a \in Arrays : \/ \E k \in {"apply", "apply_shape"}, b \in Batches : Apply(a, k, b)
                           \/ \E v \in Vals : Write(a, v)
+        \/ Query
 Spec == Init /\ [][Next]_vars
 Pure == last = lastIdeal
 \* complete-graph mode: the state without the history is finite; with VIEW NoHist and no depth bound TLC visits every
 \* reachable state, checks Pure there (histories of ANY length) and EmitTrans emits one history per transition
-NoHist == <<arr, cref, csnap, cres, last, lastIdeal>>
+NoHist == <<arr, cref, csnap, cres, last, lastIdeal, touched>>
 EmitTrans == CSVWrite("%1$s", <<ToJson(hist')>>, IOEnv.OUT_FILE)
 Emit == (Len(hist) = D) => CSVWrite("%1$s", <<ToJson(hist)>>, IOEnv.OUT_FILE)
 =======================================================================
